@@ -308,36 +308,28 @@ def run(F, R, tier):
     # ------------------------------------------------------------------ R5 exactly one payload source
     r5 = R.rule("C01-R5", "T4", "expand_payload: (detached,None)→detached, (None,embedded)→embedded, both→Err, neither→Err")
     efn = DEC + "::Decoder::expand_payload"
-    eh = F.hir(efn)
-    if r5.anchor(eh, efn):
-        env = H.Env(eh)
-        m = H.find_first(eh, lambda n: n.get("k") == "match" and n.get("src") == "normal")
-        if r5.require(m is not None, (efn, "table"), "table not found"):
-            sc = H.strip(m["scrut"])
-            ok_sc = sc.get("k") == "tup" and len(sc["es"]) == 2
-            if ok_sc:
-                o0 = H.origins(sc["es"][0], env)
-                o1 = H.origins(sc["es"][1], env, extra=re.compile(r"filter_non_empty_bytes$"))
-                ok_sc = o0 == {("param", "detached_payload")} and o1 == {("param", "parsed_payload")}
-            r5.require(ok_sc, (efn, "scrutinee"), "expand_payload does not match on (detached_payload, filter_non_empty_bytes(parsed_payload))")
-            table = {}
-            for arm in m["arms"]:
-                ps = H.pat_str(arm["pat"])
-                oc = H.outcome(arm["body"])
-                src = None
-                if oc == "Ok":
-                    _, inner = H.ctor_class(arm["body"])
-                    src = sorted(map(str, H.origins(inner, env, extra=re.compile(r"filter_non_empty_bytes$"))))
-                table[ps] = (oc, src)
-                r5.site("expand_payload %s → %s %s" % (ps, oc, src or ""))
-            want = {"(Some(_), None)": "'detached_payload'", "(None, Some(_))": "'parsed_payload'"}
-            for k, v in want.items():
-                got = table.get(k)
-                r5.require(got is not None and got[0] == "Ok" and len(got[1]) == 1 and got[1][0].startswith("('param', %s" % v), (efn, "row", k),
-                           "row %s is %s, expected Ok(%s)" % (k, got, v))
-            for k in ("(Some(_), Some(_))", "(None, None)"):
-                r5.require(table.get(k, ("",))[0].startswith("Err("), (efn, "row", k), "row %s must be an error, found %s" % (k, table.get(k)))
-            r5.require(set(table) == set(want) | {"(Some(_), Some(_))", "(None, None)"}, (efn, "rows"), "unexpected rows %s" % sorted(table))
+    if r5.anchor(F.hir(efn), efn):
+        tab = SR.Table(F, efn, opaque=r"filter_non_empty_bytes$", rule=r5)
+        DET = SR.param("detached_payload")
+        EMB = ("call", DEC + "::filter_non_empty_bytes", (SR.param("parsed_payload"),))
+        rows = {}
+        for q in tab.paths:
+            for t_ in q.variant:
+                if isinstance(t_, tuple) and t_[:1] == ("call",) and t_[1].endswith("filter_non_empty_bytes") and t_[2] == (SR.param("parsed_payload"),):
+                    EMB = t_
+            d, e = SR.variant(q, DET), SR.variant(q, EMB)
+            if SR.is_success(q.ret):
+                inner = q.ret.fields[0] if isinstance(q.ret, sym.V) and q.ret.fields else None
+                src = "detached" if sym.term(inner) == ("payload", DET, "Some", 0) else ("embedded" if sym.term(inner) == ("payload", EMB, "Some", 0) else "other:%s" % sym.fmt(sym.term(inner)))
+                rows[(d, e)] = "Ok(%s)" % src
+            else:
+                rows[(d, e)] = "Err"
+        for k_, v_ in sorted(rows.items(), key=str):
+            r5.site("expand_payload (detached %s, embedded %s) → %s" % (k_[0], k_[1], v_))
+        want = {("Some", "None"): "Ok(detached)", ("None", "Some"): "Ok(embedded)", ("Some", "Some"): "Err", ("None", "None"): "Err"}
+        for k_, v_ in want.items():
+            r5.require(rows.get(k_) == v_ or not tab.paths, (efn, "row", "(%s, %s)" % k_), "row (detached %s, embedded %s) is %s, expected %s" % (k_[0], k_[1], rows.get(k_), v_))
+        r5.require(set(rows) == set(want) or not tab.paths, (efn, "rows"), "expand_payload does not decide on exactly (detached payload, non-empty embedded payload): %s" % sorted(rows, key=str))
     r5.floor(4)
 
     # ------------------------------------------------------------------ R6 concrete verifiers
